@@ -9,6 +9,11 @@
    (Node::namespaces()) are computed ONLY with Spec/Scope.v from the WRITTEN declarations and the parent's scope
    (parse_render_sem_ns: view = Some (sem c)).  Two resource hypotheses, stated with spec functions: at most 65535
    distinct declared bindings (the documented limit) and a namespace table within u32::MAX entries.
+   The same over Unicode (Spec/CstFull.v, stage S1: prefixes, local names, URIs, values and content are scalar values of
+   the 5th-edition classes rendered in UTF-8): parse_render_sem_full_s1; stage S2 adds CstText's pieces everywhere:
+   attribute values, text runs and the VALUES OF NAMESPACE DECLARATIONS are lists of literals (incl. CR), character and
+   predefined references (CDATA in text) -- a URI supplied through references (xmlns:p='&#117;rn:x') declares the
+   normalised URI, and the reserved-name rules are decided on it: parse_render_sem_full_s2, spelling_insensitive_full_s2.
    Statements are pinned here (copied verbatim from the proof files by tools/pin_props.py);
    each is re-proved by `exact` and followed by Print Assumptions. *)
 From Coq Require Import Ascii String.
@@ -17,8 +22,8 @@ Import ListNotations.
 From RX Require Import Generated.
 From RX.Model Require Import Base CharClass Stream Tokenizer Doc Builder Parse Api.
 From RX.Spec Require Scope.
-From RX.Spec Require Cst CstNs.
-From RX.Proofs Require Import ScopeProofs ScopeParse CstNsView CstNsMain.
+From RX.Spec Require Cst CstNs CstU CstFull.
+From RX.Proofs Require Import ScopeProofs ScopeParse CstNsView CstNsMain CstFullMain CstFullS1 CstFullS2.
 Open Scope N_scope.
 
 (* ---- Proofs/ScopeParse.v ---- *)
@@ -118,8 +123,64 @@ Theorem C06_ns_values_limit_is :
 Proof. exact ns_values_limit_is. Qed.
 Print Assumptions C06_ns_values_limit_is.
 
-(* ---- Proofs/CstNsMain.v ---- *)
+(* ---- Proofs/CstFullS1.v ---- *)
 Module G2.
+Import CstFull.
+Theorem C06_parse_render_sem_full_s1 :
+  forall (c : S1.doc) (opt : options),
+  S1.wf_doc c = true ->
+  N.of_nat (length (S1.sem c)) < nodes_limit opt ->               (* room for all nodes + the Root *)
+  N.of_nat (length (S1.render c)) <= u32_max ->                    (* the input is at most u32::MAX bytes long *)
+  S1.distinct_decls_le c (N.to_nat 65535) ->                       (* at most 65535 distinct declared bindings *)
+  1 + N.of_nat (S1.ns_cost c) <= u32_max ->                        (* the namespace table fits *)
+  exists d, parse (S1.render c) opt = Ok d /\ view (S1.render c) d = Some (S1.sem c).
+Proof. exact parse_render_sem_full_s1. Qed.
+Print Assumptions C06_parse_render_sem_full_s1.
+
+Theorem C06_layout_insensitive_full_s1 :
+  forall (c1 c2 : S1.doc) opt,
+  S1.wf_doc c1 = true -> S1.wf_doc c2 = true -> S1.sem c1 = S1.sem c2 ->
+  N.of_nat (length (S1.sem c1)) < nodes_limit opt ->
+  N.of_nat (length (S1.render c1)) <= u32_max -> N.of_nat (length (S1.render c2)) <= u32_max ->
+  S1.distinct_decls_le c1 (N.to_nat 65535) -> S1.distinct_decls_le c2 (N.to_nat 65535) ->
+  1 + N.of_nat (S1.ns_cost c1) <= u32_max -> 1 + N.of_nat (S1.ns_cost c2) <= u32_max ->
+  exists d1 d2, parse (S1.render c1) opt = Ok d1 /\ parse (S1.render c2) opt = Ok d2 /\
+                view (S1.render c1) d1 = view (S1.render c2) d2.
+Proof. exact layout_insensitive_full_s1. Qed.
+Print Assumptions C06_layout_insensitive_full_s1.
+
+End G2.
+
+(* ---- Proofs/CstFullS2.v ---- *)
+Module G3.
+Import CstFull.
+Theorem C06_parse_render_sem_full_s2 :
+  forall (c : S2.doc) (opt : options),
+  S2.wf_doc c = true ->
+  N.of_nat (length (S2.sem c)) < nodes_limit opt ->               (* room for all nodes + the Root *)
+  N.of_nat (length (S2.render c)) <= u32_max ->                    (* the input is at most u32::MAX bytes long *)
+  S2.distinct_decls_le c (N.to_nat 65535) ->                       (* at most 65535 distinct declared bindings *)
+  1 + N.of_nat (S2.ns_cost c) <= u32_max ->                        (* the namespace table fits *)
+  exists d, parse (S2.render c) opt = Ok d /\ view (S2.render c) d = Some (S2.sem c).
+Proof. exact parse_render_sem_full_s2. Qed.
+Print Assumptions C06_parse_render_sem_full_s2.
+
+Theorem C06_spelling_insensitive_full_s2 :
+  forall (c1 c2 : S2.doc) opt,
+  S2.wf_doc c1 = true -> S2.wf_doc c2 = true -> S2.sem c1 = S2.sem c2 ->
+  N.of_nat (length (S2.sem c1)) < nodes_limit opt ->
+  N.of_nat (length (S2.render c1)) <= u32_max -> N.of_nat (length (S2.render c2)) <= u32_max ->
+  S2.distinct_decls_le c1 (N.to_nat 65535) -> S2.distinct_decls_le c2 (N.to_nat 65535) ->
+  1 + N.of_nat (S2.ns_cost c1) <= u32_max -> 1 + N.of_nat (S2.ns_cost c2) <= u32_max ->
+  exists d1 d2, parse (S2.render c1) opt = Ok d1 /\ parse (S2.render c2) opt = Ok d2 /\
+                view (S2.render c1) d1 = view (S2.render c2) d2.
+Proof. exact spelling_insensitive_full_s2. Qed.
+Print Assumptions C06_spelling_insensitive_full_s2.
+
+End G3.
+
+(* ---- Proofs/CstNsMain.v ---- *)
+Module G4.
 Import CstNs.
 Theorem C06_parse_render_sem_ns :
   forall (c : doc) (opt : options),
@@ -144,4 +205,4 @@ Theorem C06_layout_insensitive_ns :
 Proof. exact layout_insensitive_ns. Qed.
 Print Assumptions C06_layout_insensitive_ns.
 
-End G2.
+End G4.
